@@ -35,10 +35,49 @@ PER_REQUEST_CLASSES = {('clastic.application', 'DispatchState'), ('clastic.error
                        ('clastic.application', 'RerouteWSGI')}
 
 
+def core_modules(repo):
+    """The modules of the framework core: the listed ones, plus every *private* module of the package (``_name.py``) a core
+    module imports a function or class from -- a piece of the core that was split off into a module of its own and is
+    imported back under its name (transitively).  The definitions in it are judged like those that stayed behind."""
+    mods = [repo.mod(n) for n in CORE_MODS if repo.try_mod(n) is not None]
+    todo = list(mods)
+    while todo:
+        m = todo.pop(0)
+        for local, (modname, attr) in sorted(m.imports.items()):
+            if attr is None or not repo.is_internal(modname) or not modname.rpartition('.')[2].startswith('_'):
+                continue
+            try:
+                tm = repo.try_mod(modname)
+            except AnalysisError:
+                tm = None
+            if tm is None or tm.external or tm in mods or tm.is_pkg:
+                continue
+            if attr in tm.functions or attr in tm.classes:
+                mods.append(tm)
+                todo.append(tm)
+    return mods
+
+
+def role_classes(repo, name):
+    """The classes a role name of ``callgraph.ROLE_TABLE`` stands for, as definitions: each ``(module, class)`` entry is
+    resolved in that module's namespace, so a class that moved to another module and is imported back is still meant."""
+    from ..callgraph import ROLE_TABLE
+    out = []
+    for modname, cname in ROLE_TABLE.get(name, []):
+        m = repo.try_mod(modname)
+        if m is None:
+            continue
+        try:
+            out.append(m.cls(cname))
+        except AnalysisError:
+            continue
+    return out
+
+
 class RequestPath(object):
     def __init__(self, repo):
         self.repo = repo
-        self.mods = [repo.mod(n) for n in CORE_MODS if repo.try_mod(n) is not None]
+        self.mods = core_modules(repo)
         self.cg = CallGraph(repo, self.mods)
         app = repo.mod('clastic.application')
         self.root = app.func('Application.__call__')
@@ -55,12 +94,12 @@ class RequestPath(object):
                     self.dynamic_roots.append((c.methods[nm], 'inject(self.render_error) / err_handler.%s' % nm))
             for attr, v in c.class_attrs.items():
                 if attr.endswith('_type') and isinstance(v, ast.Name):
-                    k, m, obj = repo.resolve(err, v.id)
+                    k, m, obj = repo.resolve(c.mod, v.id)
                     if k == 'class':
                         for meth in obj.methods.values():
                             self.dynamic_roots.append((meth, '%s.%s = %s (instantiated per request)' % (c.name, attr, obj.name)))
                         for base in repo.mro(obj):
-                            if isinstance(base, ClassInfo) and base.mod is err:
+                            if isinstance(base, ClassInfo) and not base.mod.external:
                                 for meth in base.methods.values():
                                     self.dynamic_roots.append((meth, 'base %s of %s' % (base.name, obj.name)))
         self.dynamic_roots.append((route.func('NullRoute.handle_sentinel_condition'), 'endpoint of the null route (run through the generated chain)'))
@@ -69,8 +108,12 @@ class RequestPath(object):
         self.per_request = []
         for modname, cname in PER_REQUEST_CLASSES:
             m = repo.try_mod(modname)
-            if m is not None and cname in m.classes:
-                self.per_request.append(m.classes[cname])
+            if m is None:
+                continue
+            try:
+                self.per_request.append(m.cls(cname))       # (follows the class to the module it is defined in)
+            except AnalysisError:
+                continue
 
     def _stop(self, e):
         # construction-time entry points are not part of serving a request even if a by-name edge finds them
@@ -95,6 +138,11 @@ class RequestPath(object):
         root = eff.root
         if root is None:
             return 'shared', 'receiver is not rooted in a name: %s' % short(eff.target)
+        # an object taken out of the caller's */** arguments is the caller's, whatever the local that names it is called (the
+        # mapping / tuple itself is built per call: only what lies one level down is judged here)
+        src = self.caller_supplied(fi, eff)
+        if src:
+            return 'shared', src
         if root in fresh:
             return 'fresh', 'allocated in this activation'
         ci = self.cg.enclosing_class(fi)
@@ -135,6 +183,102 @@ class RequestPath(object):
             return 'shared', 'module-level object %s' % root
         # local of unknown provenance (e.g. alias of a parameter)
         return 'shared', 'local %s of unknown provenance' % root
+
+    # ---- objects that belong to the caller -----------------------------------------------------------------------------
+    @staticmethod
+    def _star_params(fi):
+        a = fi.node.args
+        return (a.vararg.arg if a.vararg else None), (a.kwarg.arg if a.kwarg else None)
+
+    def _taken_from_star(self, fi, v, depth=0):
+        """``v`` evaluates to an object the *caller* put into ``*args`` / ``**kwargs``: ``kw.get(k[, d])`` / ``kw.pop(k[, d])`` /
+        ``kw[k]`` / ``kw.setdefault(k, <such>)`` / ``args[i]`` / ``next(iter(args))`` -- the mapping / tuple is built per
+        call, what it holds is not.  -> text, or None."""
+        va, kw = self._star_params(fi)
+        if va is None and kw is None:
+            return None
+        if isinstance(v, ast.Subscript) and isinstance(v.value, ast.Name) and v.value.id in (va, kw) and not isinstance(v.slice, ast.Slice):
+            return short(v, 40)
+        if isinstance(v, ast.Call) and isinstance(v.func, ast.Attribute) and isinstance(v.func.value, ast.Name) and \
+                v.func.value.id == kw and kw is not None and v.func.attr in ('get', 'pop', 'setdefault', '__getitem__') and v.args:
+            return short(v, 40)
+        if isinstance(v, ast.BoolOp) and depth < 2:
+            # ``kw.get(k) or <fresh>``: the caller's object when there is one
+            for x in v.values:
+                t = self._taken_from_star(fi, x, depth + 1)
+                if t:
+                    return t
+        if isinstance(v, ast.IfExp) and depth < 2:
+            for x in (v.body, v.orelse):
+                t = self._taken_from_star(fi, x, depth + 1)
+                if t:
+                    return t
+        return None
+
+    def caller_supplied(self, fi, eff):
+        """The receiver of effect ``eff`` is (or may be, on some path) an object the caller handed over inside ``*args`` /
+        ``**kwargs``: updated in place it changes something this activation does not own.  Either the effect goes through
+        the star parameter itself one level down (``kw[k].update(..)``, ``kw[k][j] = v``, ``args[0].append(..)``), or through
+        a local one of whose definitions *reaching the statement* takes the object out of the star parameter (also through a
+        plain copy of such a local).  A key this function itself stores into the mapping first is its own.  -> text, or None."""
+        if isinstance(fi.node, ast.Lambda):
+            return None
+        va, kw = self._star_params(fi)
+        if va is None and kw is None:
+            return None
+        ch = eff.chain or []
+        root = eff.root
+        if root in (va, kw) and root is not None:
+            deep = (eff.kind == 'mutcall' and len(ch) >= 2) or (eff.kind in ('store', 'delete') and len(ch) >= 3)
+            if not deep or ch[1] != '[]':
+                return None
+            # ``kw['headers'] = Headers()`` ... ``kw['headers'].add(..)``: an entry the function put there itself
+            t = eff.target
+            while isinstance(t, (ast.Attribute, ast.Subscript)) and not (isinstance(t, ast.Subscript) and isinstance(t.value, ast.Name)):
+                t = t.value
+            key = t.slice if isinstance(t, ast.Subscript) else None
+            if isinstance(key, ast.Constant) and root == kw:
+                for st in stmts_of_(fi.node):
+                    if isinstance(st, ast.Assign):
+                        for t0 in st.targets:
+                            for x in effects._targets(t0):
+                                if isinstance(x, ast.Subscript) and isinstance(x.value, ast.Name) and x.value.id == kw and \
+                                        isinstance(x.slice, ast.Constant) and x.slice.value == key.value:
+                                    return None
+            return 'an element of the caller\'s %s%s (%s): the %s is built per call, what the caller put into it is not' % (
+                '**' if root == kw else '*', root, short(eff.target, 40), 'mapping' if root == kw else 'tuple')
+        if root is None or root in fi.params() or root in (va, kw):
+            return None
+        from ..astutil import stmt_of
+        st = eff.node if isinstance(eff.node, ast.stmt) else stmt_of(fi.mod, eff.node)
+        if st is None:
+            return None
+        try:
+            fl = getattr(fi, '_flow', None)
+            if fl is None:
+                fl = fi._flow = effects.Flow(fi)
+            return self._reaching_caller_object(fi, fl, root, st, 0, set())
+        except AnalysisError:
+            return None
+
+    def _reaching_caller_object(self, fi, fl, name, st, depth, seen):
+        if depth > 3 or name in seen:
+            return None
+        seen = seen | {name}
+        for d in fl.reaching(name, st):
+            if d.kind != 'assign':
+                continue
+            v, _ = fl.unpacked(d)
+            if v is None:
+                continue
+            t = self._taken_from_star(fi, v)
+            if t:
+                return 'local %s may name %s here: an object the caller passed in (not a copy)' % (name, t)
+            if isinstance(v, ast.Name) and v.id not in fi.params() and d.stmt is not None:
+                t = self._reaching_caller_object(fi, fl, v.id, d.stmt, depth + 1, seen)
+                if t:
+                    return t
+        return None
 
     @staticmethod
     def _default_of(fi, name):
@@ -405,7 +549,7 @@ class RequestPath(object):
                 if isinstance(n, ast.Name):
                     names.add(n.id)
             for name in sorted(names - {'self', 'cls'}):
-                roles = [c for c in classes if (c.mod.name, c.name) in ROLE_TABLE.get(name, [])]
+                roles = [c for c in classes if name in ROLE_TABLE and c in role_classes(self.repo, name)]
                 if not roles and name not in fi.params():
                     vals = assigned_value(fi.node, name)
                     ctor = []
